@@ -258,6 +258,19 @@ def _dataset_kind(inp, d, f):
     if kind == "undisplaced_first":
         d = d.copy()
         d[0] = 0.0
+    elif kind == "finite_displacement":
+        # finite-displacement style data: a snapshot moves one coordinate (cycling through all of them), half of the
+        # snapshots a second one; every other displacement is EXACTLY zero
+        S_, N_ = d.shape[0], d.shape[1]
+        amp = float(np.abs(d).mean()) * 1.5 or 0.03
+        rk = np.random.default_rng(inp.get("data_seed", 0) + 3)
+        d = np.zeros_like(d)
+        for s_ in range(S_):
+            c1 = s_ % (3 * N_)
+            d[s_, c1 // 3, c1 % 3] = amp * rk.choice([-1.0, 1.0])
+            if rk.random() < 0.5:
+                c2 = int(rk.integers(0, 3 * N_))
+                d[s_, c2 // 3, c2 % 3] += amp * rk.choice([-1.0, 1.0, 0.5])
     elif kind == "repeated":
         k = max(1, d.shape[0] // 5)
         d = np.concatenate([d, d[:k]])
@@ -500,7 +513,7 @@ def gen_fit_inputs(rng, n, max_N=(6, 4, 3), combos=None):
             # small-amplitude stream (only where the normal equations stay well conditioned: orders <= 3)
             amp = rng.choice([1e-3, 3e-4])
         yield {"crystal": cr, "orders": list(orders), "n_snap": n_snap, "data_seed": rng.randrange(10 ** 6), "amp": amp,
-               "dataset_kind": rng.choice([None, None, None, "undisplaced_first", "repeated"]),
+               "dataset_kind": rng.choice([None, None, None, "undisplaced_first", "repeated", "finite_displacement"]),
                "tol": 1e-6 if amp >= 0.01 else 1e-5,
                "compact": rng.random() < 0.5, "batch_size": rng.choice([None, 1, 3, 7]),
                "hooks": hooks}
@@ -1142,15 +1155,17 @@ def check_history(inp) -> list:
             return "the dataset of a second object built from the same arrays was modified"
         return None
 
+    eff = {}             # order -> cutoff with which the basis set the object currently HOLDS was built
+
     def fresh(orders, ds, compact):
-        key = (tuple(orders), ds, compact)
+        key = (tuple(orders), ds, compact, tuple(eff.get(o) for o in orders))
         if key not in fresh_cache:
             d, f = datasets[ds]
             t = Symfc(cr.atoms(), displacements=d.copy(), forces=f.copy(), cutoff=None if cutd is None else dict(cutd))
             # reference basis sets are built one order at a time, directly from the basis-set classes, so that the
-            # reference does not depend on how compute_basis_set groups the orders
-            t.basis_set = {o: ph.basis_cls(o)(cr.atoms(), cutoff=None if cutd is None else cutd.get(o)).run()
-                           for o in orders}
+            # reference does not depend on how compute_basis_set groups the orders; each with the cutoff of the basis
+            # set the object holds (its own, or the giver's after a hand-over)
+            t.basis_set = {o: ph.basis_cls(o)(cr.atoms(), cutoff=eff.get(o)).run() for o in orders}
             t.solve(orders=list(orders), is_compact_fc=compact)
             fresh_cache[key] = {o: t.force_constants[o].copy() for o in orders}
         return fresh_cache[key]
@@ -1211,6 +1226,17 @@ def check_history(inp) -> list:
                 s.forces = f
             elif kind == "basis":
                 s.compute_basis_set(orders=op[1])
+                for o_ in op[1]:
+                    eff[o_] = None if cutd is None else cutd.get(o_)
+            elif kind == "receive":
+                # basis sets of ANOTHER configuration (a genuine cutoff of the giver) are handed over to an object that
+                # may already have solved these orders; the next solve must use what the object now holds
+                donor = Symfc(cr.atoms(), cutoff={int(k): v for k, v in op[2].items()})
+                donor.compute_basis_set(orders=op[1])
+                s.basis_set = donor.basis_set
+                eff.clear()
+                for o_ in donor.basis_set:
+                    eff[o_] = op[2].get(str(o_))
             elif kind == "handover":
                 t = Symfc(cr.atoms(), cutoff=None if cutd is None else dict(cutd))
                 t.basis_set = s.basis_set
@@ -1227,7 +1253,10 @@ def check_history(inp) -> list:
                 donor = Symfc(cr.atoms(), cutoff={2: 30.0, 3: 31.0, 4: 32.0})
                 donor.compute_basis_set(orders=op[1])
                 s.basis_set = donor.basis_set
+                eff.clear()
                 s.compute_basis_set(orders=op[1])
+                for o_ in s.basis_set:
+                    eff[o_] = (None if cutd is None else cutd.get(o_)) if o_ in op[1] else {2: 30.0, 3: 31.0, 4: 32.0}[o_]
             elif kind == "solve":
                 orders, compact = op[1], op[2]
                 if cur is None or any(o not in s.basis_set for o in orders):
@@ -1285,6 +1314,10 @@ def gen_history_inputs(rng, n):
                        "cutoff": {str(rng.choice(od)): cv}}
                 continue
         ops = [("data", 0)]
+        from . import physics as _ph2
+        dd_ = _ph2.min_image_distances(cr)
+        vals_ = np.unique(np.round(dd_[dd_ > 1e-6], 6))
+        recv_cut = float((vals_[-2] + vals_[-1]) / 2) if len(vals_) >= 2 else None      # drops the farthest shell only
         for _ in range(rng.randint(4, 7)):
             r = rng.random()
             if r < 0.25:
@@ -1295,9 +1328,13 @@ def gen_history_inputs(rng, n):
                 ops.append(("handover",))
             elif r < 0.53:
                 ops.append(("bystander", rng.choice(combos[:3]), rng.random() < 0.5))
-            elif r < 0.58:
+            elif r < 0.60 and recv_cut is not None:
+                od = rng.choice(combos[:3] if len(cr.numbers) > 3 else combos)
+                ops.append(("receive", od, {str(o): recv_cut for o in od}))
+                ops.append(("solve", od, rng.random() < 0.5))
+            elif r < 0.64:
                 ops.append(("rejected", rng.choice([[2, 3], [3], [3, 4], [2, 3, 4], [4], [2, 4], [2, 2]]), rng.random() < 0.5))
-            elif r < 0.68:
+            elif r < 0.72:
                 od = rng.choice(combos[:3] if len(cr.numbers) > 3 else combos)
                 ops.append(("foreign", od))
                 ops.append(("solve", od, rng.random() < 0.5))
